@@ -41,7 +41,9 @@ class PcaClassifier:
         self.n_components = n_components
         self.n_clusters = n_clusters
 
-        self._pca = PCA(n_components=n_components)
+        # NOTE: the exact solver. The randomized solver (chosen by "auto" for large
+        # inputs) is neither accurate without power iterations nor reproducible.
+        self._pca = PCA(n_components=n_components, svd_solver="full")
         self._kmeans = KMeans(n_clusters=n_clusters, random_state=seed, n_init=10)
 
     @property
@@ -83,7 +85,8 @@ class PcaClassifier:
             _input = self._image * self._mask
         else:
             _input = self._image
-        _flat_images = _input.reshape(self._n_image, -1)
+        # SVD of a dask array needs a single block along one of the axes.
+        _flat_images = _input.reshape(self._n_image, -1).rechunk({1: -1})
         return _flat_images
 
     def get_transform(self, labels: Iterable[int] | None = None) -> NDArray[np.float32]:
